@@ -1002,7 +1002,17 @@ def expand_list_comprehensions(fn: ast.FunctionDef) -> bool:
         for g in reversed(value.generators):
             for c in reversed(g.ifs):
                 inner = [ast.copy_location(ast.If(test=c, body=inner, orelse=[]), c)]
-            inner = [ast.copy_location(ast.For(target=g.target, iter=g.iter, body=inner, orelse=[], type_comment=None), g.iter)]
+            def loop_over(it: ast.AST, body: List[ast.stmt]) -> List[ast.stmt]:
+                # `for o in [x]: body` with a plain target is body[o := x]
+                if isinstance(it, (ast.List, ast.Tuple)) and len(it.elts) == 1 and isinstance(g.target, ast.Name) and _pure_arg(it.elts[0]):
+                    return [_SubstMany({g.target.id: it.elts[0]}).visit(clone(b)) for b in body]
+                return [ast.copy_location(ast.For(target=clone(g.target), iter=it, body=body, orelse=[], type_comment=None), g.iter)]
+
+            if isinstance(g.iter, ast.IfExp) and _pure_arg(g.iter.test.args[0] if isinstance(g.iter.test, ast.Call) and g.iter.test.args else g.iter.test):
+                # `for o in (A if C else B)`: the iterable is chosen once per pass of the loop around it
+                inner = [ast.copy_location(ast.If(test=g.iter.test, body=loop_over(g.iter.body, [clone(b) for b in inner]), orelse=loop_over(g.iter.orelse, [clone(b) for b in inner])), g.iter)]
+            else:
+                inner = [ast.copy_location(ast.For(target=g.target, iter=g.iter, body=inner, orelse=[], type_comment=None), g.iter)]
         init = ast.copy_location(ast.Assign(targets=[ast.Name(id=acc, ctx=ast.Store())], value=ast.copy_location(ast.List(elts=[], ctx=ast.Load()), at)), at)
         return acc, [init] + inner
 
@@ -1020,7 +1030,9 @@ def expand_list_comprehensions(fn: ast.FunctionDef) -> bool:
             val = st.value if isinstance(st, (ast.Assign, ast.AnnAssign, ast.Return)) else None
             if isinstance(val, ast.ListComp) and not any(g.is_async for g in val.generators):
                 tnames = {n.id for g in val.generators for n in ast.walk(g.target) if isinstance(n, ast.Name)}
-                others = {n.id for n in ast.walk(fn) if isinstance(n, ast.Name) and isinstance(n.ctx, ast.Store) and not any(n is x for g in val.generators for x in ast.walk(g.target))}
+                # targets of OTHER comprehensions live in scopes of their own: they do not clash with the loop variable
+                comp_targets = {id(x) for c_ in ast.walk(fn) if isinstance(c_, (ast.ListComp, ast.SetComp, ast.DictComp, ast.GeneratorExp)) and c_ is not val for g_ in c_.generators for x in ast.walk(g_.target)}
+                others = {n.id for n in ast.walk(fn) if isinstance(n, ast.Name) and isinstance(n.ctx, ast.Store) and id(n) not in comp_targets and not any(n is x for g in val.generators for x in ast.walk(g.target))}
                 if not (tnames & others) and not (tnames & {a.arg for a in fn.args.args}):
                     acc, pre = expand(val, st)
                     out.extend(pre)
